@@ -145,6 +145,51 @@ func genC19(e *emitter, tier string, seed uint64) map[string]interface{} {
 			e.fail(idx, "ids_distinct_concurrent", bad)
 		}
 	}
+	// constructors that FAIL (a body the connection's codec cannot marshal) in between and at the same time as constructors that succeed: an id
+	// that was handed out stays handed out — a failed call may leave a gap, it never makes a later request repeat an id
+	for _, g := range []int{1, 8} {
+		ctx := protocol.NewContext(context.Background(), protocol.ClientSide)
+		ctx.Handshake(&protocol.Handshake{Version: 1, Codec: protocol.CodecJSON, Platform: protocol.PlatformOpenapi})
+		ids := make([][]uint32, g)
+		var wg sync.WaitGroup
+		for k := 0; k < g; k++ {
+			wg.Add(1)
+			go func(k int) {
+				defer wg.Done()
+				for i := 0; i < 3000; i++ {
+					var body interface{} = []byte{}
+					if (i+k)%3 == 0 {
+						body = make(chan int) // not marshalable
+					}
+					if pk, err := protocol.NewRequest(ctx, 1, body); err == nil {
+						ids[k] = append(ids[k], pk.Metadata.RequestId)
+					}
+				}
+			}(k)
+		}
+		wg.Wait()
+		seen := map[uint32]int{}
+		bad := ""
+		for k := range ids {
+			last := uint32(0)
+			for _, id := range ids[k] {
+				seen[id]++
+				if id <= last && bad == "" {
+					bad = fmt.Sprintf("%d goroutine(s) mixing failing and succeeding request constructors: goroutine %d got id %d after id %d", g, k, id, last)
+				}
+				last = id
+			}
+		}
+		for id, n := range seen {
+			if n > 1 && bad == "" {
+				bad = fmt.Sprintf("%d goroutine(s) mixing failing and succeeding request constructors: id %d was stamped on %d packets", g, id, n)
+			}
+		}
+		idx := e.op(fmt.Sprintf("ids.note failing-constructors goroutines=%d", g), "ok", "failing-constructors", true)
+		if bad != "" {
+			e.fail(idx, "ids_distinct_concurrent", bad)
+		}
+	}
 	// a context whose PARENT is itself a protocol context (a gateway hands the accepted connection's context to the dial of its upstream
 	// connection; a per-request child context): the new connection context is a connection context of its own — its ids start at 1 and
 	// neither side's traffic shows in the other's ids, sequentially and with both in use at the same time
